@@ -23,6 +23,7 @@ import (
 
 	"verif/harness/conc"
 	"verif/harness/engine"
+	"verif/harness/seats"
 	"verif/harness/sim"
 )
 
@@ -33,6 +34,7 @@ type propSpec struct {
 	Title     string
 	Rule      string
 	Shards    bool  // run in child processes (concurrent goroutine mode)
+	GenS      int64 // world S over the generated copy (scheduling points at every statement of seat_manager): runs in the quick tier, 0 = not attached
 	Conc      int64 // world Y (concurrent hands over the copy with scheduling points): groups in the quick tier, 0 = not attached
 	Assume    []string
 	Probes    []string
@@ -188,6 +190,10 @@ func cmdShard(args []string) int {
 		world = conc.World{Cold: true}
 		tag = sim.Mix(tag, sim.HashString("Ycold"))
 	}
+	if *wname == "SY" {
+		world = seats.World{Gen: true}
+		tag = sim.Mix(tag, sim.HashString("SY"))
+	}
 	b := &sim.Batch{World: world, Opt: sim.Options{Property: *p, Tier: *tier, Known: loadKnown(), Seed: *seed},
 		Tag: tag, Runs: *runs, Budget: time.Duration(*budget * float64(time.Second)), Workers: *workers, First: *first, Stride: *stride}
 	agg := b.Run()
@@ -225,7 +231,7 @@ func yBin() string {
 }
 
 func exeFor(world string) string {
-	if world == "Y" {
+	if world == "Y" || world == "SY" {
 		if b := yBin(); b != "" {
 			return b
 		}
@@ -522,6 +528,67 @@ func cmdCheck(args []string) int {
 			}
 		}
 	}
+	if spec.GenS > 0 {
+		yinfo = map[string]interface{}{"attached": true}
+		if yb := yBin(); yb == "" {
+			why := os.Getenv("VERIF_YBIN_WHY")
+			if why == "" {
+				why = "the binary over the generated copy is not there (VERIF_YBIN)"
+			}
+			yinfo["run"] = false
+			yinfo["reason"] = why
+			fmt.Printf("NOTE: generated-scheduling-points part (world S over the generated copy) not run: %s\n", why)
+		} else {
+			yruns, ybudget := spec.GenS, 0.0
+			if runs == 0 {
+				yruns, ybudget = 0, budget/4
+			} else if *runsF > 0 {
+				yruns = *runsF / 10
+			}
+			y0 := time.Now()
+			ya, err := runShardedExe(yb, "SY", *p, *tier, seed, yruns, ybudget, workers)
+			if err != nil {
+				fmt.Fprintln(os.Stderr, "HARNESS-FAULT (world S, generated copy):", err)
+				return 2
+			}
+			if len(ya.Faults) > 0 {
+				fmt.Fprintln(os.Stderr, "HARNESS-FAULT (world S, generated copy):", strings.Join(ya.Faults, "; "))
+				return 2
+			}
+			var dh [2]string
+			for t := 0; t < 2; t++ {
+				cmd := exec.Command(yb, "dethash", "-p", *p, "-world", "SY", "-runs", "40", "-tier", *tier)
+				cmd.Env = append(os.Environ(), fmt.Sprintf("VERIF_SEED=%d", seed), fmt.Sprintf("GOMAXPROCS=%d", 1+3*t))
+				cmd.Stderr = os.Stderr
+				out, err := cmd.Output()
+				if err != nil {
+					fmt.Fprintln(os.Stderr, "HARNESS-FAULT (world S, generated copy): determinism sample:", err)
+					return 2
+				}
+				dh[t] = lastLine(string(out))
+			}
+			if dh[0] != dh[1] || !strings.Contains(dh[0], "hash=") {
+				fmt.Fprintf(os.Stderr, "HARNESS-FAULT (world S, generated copy): determinism sample mismatch: %q vs %q\n", dh[0], dh[1])
+				return 2
+			}
+			yinfo["run"] = true
+			yinfo["runs"] = ya.Runs
+			yinfo["scheduling_steps"] = ya.Steps
+			yinfo["bursts"] = ya.Counters["probe.concurrent-burst"]
+			yinfo["distinct_scheduler_states"] = len(ya.States)
+			yinfo["determinism_sample_runs"] = 40
+			yinfo["wall_s"] = time.Since(y0).Seconds()
+			yinfo["rule"] = "world S in concurrent mode over a generated copy of the working tree: a scheduling point before every statement of seat_manager (a goroutine parks there with probability 1/2 .. 1/64 from its own recorded stream), lock acquisitions as TryLock loops that yield to the scheduler; read-only calls run beside the seat operations and what they return must match a sequential order; every burst, also of a single call, is compared with the sequential orders on a restored replica; distinct = (label of the point where the released goroutine parked next, parked, unfinished)"
+			fmt.Printf("simcheck: world S over the generated copy: runs=%d scheduling-steps=%d bursts=%d states=%d wall=%.1fs\n", ya.Runs, ya.Steps, ya.Counters["probe.concurrent-burst"], len(ya.States), time.Since(y0).Seconds())
+			for k, v := range ya.Viol {
+				if _, dup := agg.Viol[k]; !dup {
+					agg.Viol[k] = v
+				}
+			}
+			agg.Counters["probe.generated-copy-runs"] += ya.Runs
+			agg.Inconclusive += ya.Inconclusive
+		}
+	}
 	concInfo = yinfo
 	// determinism sample: re-run a few sub-seeds and compare event logs
 	detOK, detN := determinismSample(world, opt, *p, 6)
@@ -597,14 +664,37 @@ func cmdCheck(args []string) int {
 				fmt.Fprintln(os.Stderr, "HARNESS-FAULT:", err)
 				return 2
 			}
-			ctx, cancel := context.WithTimeout(context.Background(), 4*time.Minute)
+			// does the recorded case reproduce at all, on its own, in a
+			// fresh process? (cheap; a case that does not is skipped at once)
+			raw := filepath.Join(replayDir(), fmt.Sprintf(".raw-%s-%d-%d.json", *p, cand.SubSeed, ci))
+			writeCase(raw, cand)
+			rctx, rcancel := context.WithTimeout(context.Background(), 90*time.Second)
+			ro0, _ := exec.CommandContext(rctx, exe, "replay", raw).CombinedOutput()
+			rcancel()
+			if !strings.Contains(string(ro0), "REPRODUCED") {
+				os.Remove(raw)
+				os.Remove(in)
+				fmt.Printf("  candidate %d (sub-seed %d) does not reproduce on its own\n", ci, cand.SubSeed)
+				continue
+			}
+			ctx, cancel := context.WithTimeout(context.Background(), 150*time.Second)
 			mo, merr := exec.CommandContext(ctx, exe, "minimise", in, out).CombinedOutput()
 			cancel()
 			os.Remove(in)
 			if merr != nil {
-				fmt.Printf("  candidate %d (sub-seed %d) does not reproduce on its own: %s\n", ci, cand.SubSeed, strings.TrimSpace(lastLine(string(mo))))
-				continue
+				// minimisation failed or ran out of time: the recorded case
+				// itself is the replay file
+				fmt.Printf("  candidate %d (sub-seed %d): not minimised (%s); the recorded case is kept\n", ci, cand.SubSeed, strings.TrimSpace(lastLine(string(mo))))
+				for _, l := range strings.Split(string(ro0), "\n") {
+					if strings.HasPrefix(l, "violation: property="+v.Property) && strings.Contains(l, fmt.Sprintf("signature=%q", v.Sig)) {
+						fmt.Sscanf(l[strings.Index(l, "step=")+5:], "%d", &cand.Expect.Step)
+					}
+				}
+				cand.Expect.Detail = v.Detail
+				cand.Note = "not minimised"
+				writeCase(out, cand)
 			}
+			os.Remove(raw)
 			// the replay must reproduce in yet another fresh process
 			ro, rerr := exec.Command(exe, "replay", out).CombinedOutput()
 			if rerr == nil || !strings.Contains(string(ro), "REPRODUCED") {
@@ -697,7 +787,7 @@ func cmdReplay(args []string) int {
 		fmt.Fprintln(os.Stderr, "HARNESS-FAULT:", err)
 		return 2
 	}
-	if c.World == "Y" && !conc.Available() {
+	if (c.World == "Y" || c.World == "SY") && !conc.Available() {
 		// needs the binary built over the copy with scheduling points
 		yb := yBin()
 		if yb == "" {
@@ -783,6 +873,9 @@ func cmdDetHash(args []string) int {
 	if *wname == "Ycold" {
 		w = conc.World{Cold: true}
 	}
+	if *wname == "SY" {
+		w = seats.World{Gen: true}
+	}
 	opt := sim.Options{Property: *p, Tier: *tier, Known: loadKnown(), Seed: seed, KeepLog: true}
 	hashes := make([]uint64, *runs)
 	ch := make(chan int64, *runs)
@@ -846,6 +939,9 @@ func lastLine(s string) string {
 func worldOf(name string) sim.World {
 	if name == "Y" {
 		return conc.World{}
+	}
+	if name == "SY" {
+		return seats.World{Gen: true}
 	}
 	if name == "P" || name == "E" {
 		return engine.Mixed{}
